@@ -25,7 +25,17 @@ def c14_predicate(c, o, j):
             return list(ts_)
         return [t for t in ts_ if (t <= last if inclusive else t < last)]
     # portfolio construction runs at exactly the scheduled instants that are clock events and not before burn-in
-    want = [t for t in times if t in set(o['schedule']) and (burn is None or t >= burn)]
+    # the schedule is recomputed from the configuration (C13's definition), not read back from the session
+    sched = set(o['schedule'])
+    try:
+        from .c13 import expected as sched_expected
+        r = cfg['rebal']
+        sched = set(sched_expected({'which': {'weekly': 'weekly', 'daily': 'daily', 'eom': 'end_of_month', 'bah': 'buy_and_hold'}[r[0]],
+                                    'start': cfg['start'], 'stop': cfg['end'], 'pm': False,
+                                    'weekday': (r[1].upper() if r[0] == 'weekly' else 'MON')}))
+    except Exception:
+        pass
+    want = [t for t in times if t in sched and (burn is None or t >= burn)]
     if o['pcm_times'] != upto_err(want):
         F.append('portfolio construction ran at %s..., scheduled instants not before burn-in are %s...' % (o['pcm_times'][:4], upto_err(want)[:4]))
     if o['fills']:
